@@ -2,7 +2,7 @@
 (***************************************************************************)
 (* Bounded-exhaustive enumeration for C16.                                 *)
 (*  - every string over a small alphabet (digits 0 1 9, '.', '_', '+',    *)
-(*    'x', ' ') up to length MaxLen,                                       *)
+(*    'x', ' ', line feed) up to length MaxLen,                            *)
 (*  - amounts  m * 10^k  for short mantissas m and the exponents at which  *)
 (*    printing/parsing change shape (around 9, 18, and the top of the      *)
 (*    256-bit range),                                                      *)
@@ -15,7 +15,7 @@ EXTENDS Amount, TLC, Json, IOUtils, FiniteSets, SequencesExt
 
 CONSTANTS MaxLen, MaxMant
 
-Alphabet == {48, 49, 57, 46, 95, 43, 120, 32}
+Alphabet == {48, 49, 57, 46, 95, 43, 120, 32, 10}
 Strings == UNION {[1..n -> Alphabet] : n \in 0..MaxLen}
 
 MantDigits == {0, 1, 9}
@@ -63,10 +63,25 @@ SpecParseShape == c.kind = "str" =>
     /\ r.k \in {"accept", "reject", "either"}
     /\ (r.k # "reject" => Representable(r.v) /\ r.v = Strip(r.v))
     \* a string with a foreign character is never acceptable
-    /\ ((\E i \in 1..Len(c.s) : c.s[i] \in {95, 120, 32}) => r.k = "reject")
+    /\ ((\E i \in 1..Len(c.s) : c.s[i] \in {95, 120, 32, 10}) => r.k = "reject")
     \* accepted strings print back to something that parses to the same value
     /\ (r.k = "accept" => ParseSpec(DisplayOf(r.v)).v = r.v)
 ASSUME MaxIs78 == Len(MAXD) = 78
+\* leading zeros do not change what a decimal string denotes: an integer part far longer than the 78 digits of the
+\* largest amount is accepted when its value is representable, rejected when it is not; line ends are foreign;
+\* the printed form has exactly 18 fraction digits
+ASSUME LongZeros ==
+    LET z == [i \in 1..100 |-> 48] IN
+    /\ ParseSpec(z \o <<49, 46, 53>>) = [k |-> "accept", v |-> <<1, 5>> \o Zeros(17)]
+    /\ ParseSpec(z) = [k |-> "accept", v |-> <<>>]
+    /\ ParseSpec(z \o ToChars(MAXD)).k = "reject"
+    /\ ParseSpec(z \o DisplayOf(MAXD)) = [k |-> "accept", v |-> MAXD]
+    /\ ParseSpec(<<49, 10>>).k = "reject" /\ ParseSpec(<<49, 13>>).k = "reject" /\ ParseSpec(<<10, 49>>).k = "reject"
+ASSUME Exactly18 ==
+    /\ DisplayOK(<<49, 46>> \o [i \in 1..18 |-> 48], <<1>> \o Zeros(18))
+    /\ ~DisplayOK(<<49, 46>> \o [i \in 1..17 |-> 48], <<1>> \o Zeros(18))
+    /\ ~DisplayOK(<<49>>, <<1>> \o Zeros(18))
+    /\ ~DisplayOK(<<49, 46, 53>>, <<1, 5>> \o Zeros(17))
 
 \* ---- case list for the driver (written once, when TLC evaluates the assumption)
 CaseOut(x) == IF x.kind = "str" THEN [kind |-> "str", s |-> x.s, exp |-> ParseSpec(x.s).k]
